@@ -41,6 +41,7 @@ var (
 	S0   = contract('s', 0)
 	S1c  = contract('s', 1)
 	D0   = contract('d', 0)
+	T0   = contract('t', 0) // a contract whose owner is the contract s0
 	M    = contract('m', 0xff)
 	Sys  = vmcommon.SystemAccountAddress
 	ESDT = vmcommon.ESDTSCAddress
@@ -73,6 +74,8 @@ func Name(a []byte) string {
 		return "s1"
 	case string(D0):
 		return "d0"
+	case string(T0):
+		return "t0"
 	case string(M):
 		return "m"
 	case string(Sys):
@@ -184,6 +187,7 @@ func NewBuilder(env *world.Env) *Builder {
 	}
 	mk(S0, A0)
 	mk(D0, A0)
+	mk(T0, S0)
 	if env.Cfg.NumShards > 1 {
 		mk(S1c, C1)
 	}
